@@ -1,8 +1,9 @@
 """C20 -- reports and derived views (list, dup, status, pool) reflect the recorded state; names of arbitrary bytes
 survive every output."""
-import os, sys, json, re, subprocess, stat, shutil
+import os, sys, json, re, subprocess, stat, shutil, time
 from common import *
 from c20_tree import *
+import c20_content as c20c
 
 FLAGS = ['--test-skip-device', '--test-skip-self', '--no-warnings', '--test-force-order-alpha']
 KEY_ZEROSUB = 'F-C20-status-zerosubsecond-raw'
@@ -34,6 +35,7 @@ class Ctx:
         self.evals = 0
         self.kinds = set()
         self.samples = []
+        self.flagsets = set()
 
     def m(self, lines):
         return run_lines(self.model, lines, shards=1 if len(lines) < 64 else None)
@@ -210,9 +212,82 @@ def status_fields(cx, logb):
     return summ, blocks, info_new, info_count
 
 
+def status_vs_content(cx, tree, step, out, logb, now0, now1):
+    """every counter and tag of status against the content file decoded by harness/py/content.py, and against the
+    extracted counting model run on that decoded state"""
+    try:
+        st = c20c.load(os.path.join(tree.root, 'content'))
+        e = c20c.expected(st)
+    except Exception as ex:
+        cx.bad(step + '_content', 'the content file cannot be decoded by the independent decoder: %r' % ex, {}, drift=True)
+        return None
+    lines = [l.decode('latin1') for l in logb.split(b'\n')]
+    got_blocks = [l for l in lines if l.startswith(('block:', 'block_noinfo:'))]
+    got_it = [l for l in lines if l.startswith('info_time:')]
+    got_ic = [l for l in lines if l.startswith('info_count:')]
+    summ = {}
+    for l in lines:
+        if l.startswith('summary:has_'):
+            f = l.split(':')
+            summ[f[1]] = [int(x) for x in f[2:]]
+    want = {'has_unsynced': [len(e['unsynced'])], 'has_unscrubbed': [len(e['unscrubbed'])], 'has_rehash': [len(e['rehash'])], 'has_bad': e['has_bad']}
+    cx.evals += len(got_blocks) + len(got_it) + 4
+    cx.kinds.add('status_content_' + step)
+    cx.flagsets.update(e['flag_combinations'])
+    probs = []
+    for k, v in want.items():
+        if summ.get(k) != v:
+            probs.append('summary:%s is %s, the content file records %s' % (k, summ.get(k), v))
+    if got_blocks != e['block_lines']:
+        d = next(((a, b) for a, b in zip(got_blocks, e['block_lines']) if a != b), ('count', len(got_blocks), len(e['block_lines'])))
+        probs.append('per-stripe tag %r, recorded %r' % d[:2] if d[0] != 'count' else 'per-stripe tags: %d lines for %d stripes' % d[1:])
+    if e['count'] and (got_it != e['info_time_lines'] or got_ic != ['info_count:%d' % e['count']]):
+        d = next(((a, b) for a, b in zip(got_it, e['info_time_lines']) if a != b), (len(got_it), len(e['info_time_lines'])))
+        probs.append('info_time/info_count tags differ: %r vs recorded %r (info_count %s, recorded %d)' % (d[0], d[1], got_ic, e['count']))
+    txt = out.decode('latin1')
+    if e['count']:
+        mt = re.search(r'The oldest block was scrubbed (\d+) days ago, the median (\d+), the newest (\d+)\.', txt)
+        ok_days = set([c20c.days(e['timemap'], now0), c20c.days(e['timemap'], now1)])
+        if not mt or tuple(int(x) for x in mt.groups()) not in ok_days:
+            probs.append('scrub ages printed %s, recorded times give %s' % (mt.groups() if mt else None, sorted(ok_days)))
+        if e['unscrubbed']:
+            pc = (len(e['unscrubbed']) * 100 + e['blockmax'] - 1) // e['blockmax']
+            if ('%u%% of the array is not scrubbed.' % pc) not in txt:
+                probs.append('text does not say "%d%% of the array is not scrubbed" although %d stripes are recorded as just synced' % (pc, len(e['unscrubbed'])))
+        elif 'The full array was scrubbed at least one time.' not in txt:
+            probs.append('text does not say the full array was scrubbed although no stripe is recorded as just synced')
+        if e['bad'] and ('In the array there are %u errors!' % len(e['bad'])) not in txt:
+            probs.append('text does not announce %d errors' % len(e['bad']))
+        if (not e['bad']) and 'DANGER!' in txt:
+            probs.append('text announces errors although no stripe is recorded bad')
+        if bool(e['rehash']) != ('You have a rehash in progress' in txt):
+            probs.append('rehash-in-progress text does not match the %d stripes recorded for rehash' % len(e['rehash']))
+        if bool(e['unsynced']) != ('The array is NOT fully synced' in txt):
+            probs.append('sync-in-progress text does not match the %d unsynced stripes' % len(e['unsynced']))
+    if probs:
+        cx.bad(step + '_content', 'status does not report the recorded state (content file decoded independently): ' + '; '.join(probs[:4]),
+               {'problems': probs[:20], 'recorded_flag_combinations(bad,rehash,justsynced)': repr(e['flag_combinations']),
+                'content_hex': open(os.path.join(tree.root, 'content'), 'rb').read().hex()[:20000], 'command': 'status -G -l status.log'})
+        return e
+    mo = cx.m([e['model_line']])[0]
+    wm = 'ok %d %d %d %d %d %d %d' % (e['has_bad'][0], e['has_bad'][1], e['has_bad'][2], len(e['rehash']), e['count'], len(e['unsynced']), len(e['unscrubbed']))
+    if mo != wm:
+        cx.bad(step + '_content_model', 'the status counting model run on the decoded content disagrees with status.c and the decoded counters: model %s, recorded %s' % (mo, wm),
+               {'model': mo, 'recorded': wm, 'case_line': e['model_line'][:4000]}, drift=True)
+    return e
+
+
 def verify_status(cx, tree, step, exp):
-    """exp: dict(unsynced=set of positions, unscrubbed=set, bad=set, blockmax=int)"""
+    """exp: dict(unsynced=set of positions, unscrubbed=set, bad=set, blockmax=int) implied by the history, or None"""
+    now0 = int(time.time())
     rc, out, logb, err = tool(cx.exe, tree, ['-G', 'status'], 'status.log')
+    now1 = int(time.time())
+    e = status_vs_content(cx, tree, step, out, logb, now0, now1)
+    if exp is None:
+        if e is not None and len(cx.samples) < 12:
+            cx.samples.append({'cmd': 'status', 'step': step, 'stripes': e['blockmax'], 'has_bad': e['has_bad'], 'unscrubbed': len(e['unscrubbed']),
+                               'rehash': len(e['rehash']), 'unsynced': len(e['unsynced']), 'flag_combinations': repr(e['flag_combinations'])})
+        return e
     summ, blocks, info_new, info_count = status_fields(cx, logb)
     cx.evals += len(blocks)
     cx.kinds.add('status_' + step)
@@ -510,6 +585,77 @@ def scenario_pool_rerun(cx, rng, ndisks=2, share=None):
     verify_pool(cx, tree, 'unshare', walked, [], share)
 
 
+def corrupt_block(tree, di, sub, blk):
+    p = tree.path(di, sub)
+    st = os.stat(p)
+    with open(p, 'r+b') as f:
+        f.seek(blk * BLOCK)
+        c = f.read(1)
+        f.seek(blk * BLOCK)
+        f.write(bytes([c[0] ^ 0x21]))
+    os.utime(p, ns=(st.st_atime_ns, st.st_mtime_ns))
+
+
+def scenario_status_flags(cx, rng):
+    """info words with every combination of bad x rehash x justsynced: produced by the tool itself (sync, silent corruption,
+    scrub -p new; rehash; partial scrub) and installed into the content file; status against the decoded content"""
+    root = mkscratch('c20f.')
+    tree = Tree(root, 2)
+    t0 = 1500000000
+    for di in range(2):
+        for k in range(3):
+            tree.write(di, b'old%d' % k, bytes(rng.getrandbits(8) for _ in range((k + 2) * BLOCK - (7 if k == 1 else 0))), (t0 + k) * 10 ** 9 + 1 + di)
+    M = ['--test-force-murmur3']
+    rc, out, logb, err = tool(cx.exe, tree, M + ['sync'])
+    if rc != 0:
+        cx.bad('flags_sync', 'sync exits %d' % rc, {'stderr': err[-600:].decode('latin1')})
+        return
+    verify_status(cx, tree, 'f_synced', None)
+    tool(cx.exe, tree, M + ['scrub', '-p', '100', '-o', '0'])
+    for di in range(2):
+        for k in range(2):
+            tree.write(di, b'new%d' % k, bytes(rng.getrandbits(8) for _ in range((k + 3) * BLOCK)), (t0 + 100 + k) * 10 ** 9 + 3 + di)
+    tool(cx.exe, tree, M + ['sync'])
+    verify_status(cx, tree, 'f_second_sync', None)
+    # silent corruption of an old (scrubbed) block and of two just synced blocks, found by `scrub -p new`: bad AND just synced
+    corrupt_block(tree, 0, b'new0', 1)
+    corrupt_block(tree, 1, b'new1', 2)
+    rc, out, logb, err = tool(cx.exe, tree, M + ['scrub', '-p', 'new'])
+    e = verify_status(cx, tree, 'f_scrub_new', None)
+    if e is not None and (True, False, True) not in e['flag_combinations']:
+        cx.chk.notes.append('scrub -p new on a silently corrupted just-synced block did not leave a bad+justsynced info word (combinations %r)' % (e['flag_combinations'],))
+    corrupt_block(tree, 0, b'old2', 0)
+    tool(cx.exe, tree, M + ['scrub', '-p', '100', '-o', '0'])
+    verify_status(cx, tree, 'f_scrub_all', None)
+    # hash migration: every used stripe is marked for rehash, a partial scrub clears some of the marks
+    rc, out, logb, err = tool(cx.exe, tree, ['rehash'])
+    verify_status(cx, tree, 'f_rehash', None)
+    tree.write(0, b'third', bytes(rng.getrandbits(8) for _ in range(2 * BLOCK)), (t0 + 200) * 10 ** 9 + 9)
+    tool(cx.exe, tree, ['sync'])
+    verify_status(cx, tree, 'f_rehash_sync', None)
+    tool(cx.exe, tree, ['scrub', '-p', '40', '-o', '0'])
+    verify_status(cx, tree, 'f_rehash_scrub', None)
+    cx.chk.cov['status_flag_combinations_produced_by_the_tool_itself'] = sorted(cx.flagsets)
+    # installed states: all eight combinations (and a missing info) spread over the stripes, times spread over a year
+    cpath = os.path.join(tree.root, 'content')
+    st = c20c.load(cpath)
+    now = int(time.time())
+    for variant in range(2):
+        infos = []
+        for i in range(st['blockmax']):
+            c = (i + 3 * variant) % 9
+            if True:
+                c %= 8                                  # (a used stripe without info word makes the tool abort at load: not a status matter)
+                infos.append({'time': (now - ((i * 53 + 17 * variant) % 400) * 86400 - 8 * i) & ~7, 'bad': bool(c & 1), 'rehash': bool(c & 2), 'justsynced': bool(c & 4)})
+        if not c20c.install_info(cpath, infos):
+            cx.chk.notes.append('info record of the content file could not be located: installed-state status cases skipped')
+            break
+        verify_status(cx, tree, 'f_installed%d' % variant, None)
+    missing = [c for c in [(b, r, j) for b in (False, True) for r in (False, True) for j in (False, True)] if c not in cx.flagsets]
+    if missing:
+        cx.chk.notes.append('status flag combinations (bad, rehash, justsynced) not exercised: %r' % missing)
+
+
 def scenario_pool_stale_dir(cx):
     """a recorded file `a` is replaced by a directory a/ holding b; the pool still has the link `a` of the previous run"""
     root = mkscratch('c20s.')
@@ -710,7 +856,7 @@ def main(tier, replay=None):
     n_unit, bails, drift = unit_correspondence(chk, drv, model, tier)
     rng = chk.rng
     cxs = []
-    plans = [('main', lambda cx: scenario_main(cx, rng, 3, True, 25)), ('pool', lambda cx: scenario_pool_rerun(cx, rng)), ('zerosub', scenario_zerosub), ('stale', scenario_pool_stale_dir)]
+    plans = [('main', lambda cx: scenario_main(cx, rng, 3, True, 25)), ('pool', lambda cx: scenario_pool_rerun(cx, rng)), ('zerosub', scenario_zerosub), ('stale', scenario_pool_stale_dir), ('flags', lambda cx: scenario_status_flags(cx, rng))]
     if tier == 'thorough':
         plans += [('main%d' % i, (lambda cx, i=i: scenario_main(cx, rng, 2 + i % 4, i % 2 == 0, 60))) for i in range(1, 7)]
         plans += [('poolshare', lambda cx: scenario_pool_rerun(cx, rng, 3, share='/share/root'))]
@@ -727,6 +873,7 @@ def main(tier, replay=None):
     chk.cov.update({'evaluations': n_unit + cmd_evals, 'unit_cases_model_vs_c': n_unit, 'unit_bail_cases': bails, 'unit_model_drift': drift,
                     'command_level_record_evaluations': cmd_evals, 'distinct_nontrivial': len(kinds) + 65792,
                     'command_level_checks': kinds,
+                    'status_info_flag_combinations_seen(bad,rehash,justsynced)': sorted(set(f for c in cxs for f in c.flagsets)),
                     'rule': 'unit: esc_tag and esc_shell on every 1- and 2-byte string (65792) + random longer + ESC_MAX boundary + esc_shell_multi, C vs model vs python inverse; '
                             'command level: real binary on generated trees (every byte 1..255 but / in some name, newlines/colons/backslashes, non-UTF-8, symlinks, hard links, duplicate groups across disks), '
                             'logs read by the extracted parser and compared with the harness walk; non-trivial = distinct unit strings + distinct command-level check kinds',
